@@ -39,7 +39,9 @@ def pct_encode(b):
 
 
 def lines(content):
-    return content.split(b'\n')
+    # the readers take a .trashinfo for what it is, a text file: CR LF and bare CR end a line as LF does (files written on the
+    # Windows side of a shared volume, by sync tools, by editors set to DOS line ends)
+    return content.replace(b'\r\n', b'\n').replace(b'\r', b'\n').split(b'\n')
 
 
 def first_value(content, key):
